@@ -194,6 +194,7 @@ K = {"T1": ["T1", False], "T2": ["T2", False], "T3": ["T3", False], "T1u": ["T1"
      "R": ["R", False], "P": ["P", False], "S": ["S", False], "U": ["U", False], "T": ["T", False], "F": ["F", False],
      "Ru": ["R", True], "Pu": ["P", True], "Tu": ["T", True], "Su": ["S", True],
      "SP": ["SP", False], "SF": ["SF", False], "SPu": ["SP", True], "NV": ["NV", False], "NN": ["NN", False], "NVu": ["NV", True],
+     "TB": ["TB", False], "TBu": ["TB", True], "RB": ["RB", False], "PB": ["PB", False], "RBu": ["RB", True],
      "UX": ["UX", False], "UP": ["UP", False], "XR": ["XR", False], "XT": ["XT", False], "UXu": ["UX", True]}
 
 
@@ -259,6 +260,8 @@ def block_jobs(ctx, invariants, ops, lite=False):
                 lines_gen(4, 2, 2, ["R", "P"], blank=True, tail=True, max_code=2),                      # elements behind code on one line
                 lines_gen(5, 1, 1, ["R"], blank=True, wide=True, max_code=2),                           # lines of wide blanks (U+3000, NBSP) only
                 lines_gen(4, 2, 2, ["R", "UX", "UP", "XR", "XT"], blank=False, max_code=1),                # near-miss tag names, the other evaluator's attribute
+                lines_gen(4, 2, 2, ["TB", "R", "T"], blank=False, max_code=1),                             # a `to` that cannot be read: never ready
+                dict(lines_gen(4, 2, 2, ["RB", "PB", "R"], blank=False, max_code=1), cfg={"targets": ["a", "a "]}),   # names / targets with blank edges
                 lines_gen(4, 2, 2, ["R", "P", "T"], blank=False, eq_pad=(" ", " ")),                       # name = 'a'
                 lines_gen(4, 1, 1, ["R", "T", "S"], blank=False, eq_pad=("  ", ""), quote='"'),
                 lines_gen(4, 1, 1, ["R", "P", "T"], blank=False, extra_attr=" skipper"),
@@ -282,6 +285,8 @@ def block_jobs(ctx, invariants, ops, lite=False):
                        kitchen_sink(ctx, ["R", "P", "S", "U", "T", "F"], 14, 600)]),
         ("block-html", [dict(lines_gen(7, 2, 2, ["R", "P", "T"], ws=(2,)), cfg=html)]),
         ("block-eq-blanks", [lines_gen(6, 2, 2, ["R", "P", "T", "Ru"], blank=False, eq_pad=(" ", " ")), lines_gen(6, 2, 2, ["R", "T"], eq_pad=("  ", ""), quote='"')]),
+        ("block-unreadable-to-blank-names", [lines_gen(6, 2, 2, ["TB", "R", "T", "TBu"], blank=False, max_code=2),
+                                             dict(lines_gen(6, 2, 2, ["RB", "PB", "R", "RBu"], blank=False, max_code=2), cfg={"targets": ["a", "a "]})]),
         ("block-near-misses", [lines_gen(6, 2, 2, ["R", "UX", "UP", "XR", "XT"], blank=False, max_code=2),
                                lines_gen(6, 2, 2, ["R", "P", "T"], blank=False, extra_attr=" skipper"), lines_gen(6, 2, 2, ["R", "T"], extra_attr=" Skip"),
                                lines_gen(6, 2, 2, ["Ru", "R"], blank=False, extra_attr=" xunwrap-block unwrap-blocks")]),
@@ -327,6 +332,7 @@ def unwrap_jobs(ctx, invariants, ops, lite=False):
                 lines_gen(6, 2, 2, ["Ru", "R"], blank=False, tail=True, max_code=2),
                 lines_gen(6, 2, 2, ["Ru", "P"], blank=False, pad=" "),
                 lines_gen(6, 1, 1, ["Ru", "Tu"], free=(1,), blank=False, eq_pad=("", " ")),
+                dict(lines_gen(6, 1, 1, ["RBu", "TBu"], free=(1,), blank=False), cfg={"targets": ["a "]}),
                 lines_gen(6, 1, 1, ["Ru"], free=(0, 2), blank=False, wide=True),                          # inner lines beginning with a wide blank
                 lines_gen(7, 2, 2, ["Ru"], blank=False, wide=True, max_code=4),
                 lines_gen(6, 1, 1, ["Ru", "R"], free=(1,), blank=False, extra_attr=" xunwrap-block"),
@@ -525,7 +531,7 @@ def time_probe_job(ctx, invariants):
     q = ctx.quick
     consts = {"ToValues": [Chars(t) for t in (CANON_TOS[:3] if q else CANON_TOS[:6])], "BadTos": [Chars(t) for t in BAD_TOS],
               "OffMinutes": TlaSet([0, 540, -480, 345, 840, -720] if q else [0, 60, 540, -60, -300, -480, 345, -570, 840, -720]),
-              "BadOffsets": [Chars(o) for o in BAD_OFFS], "Deltas": DELTAS, "Probe": True}
+              "BadOffsets": [Chars(o) for o in BAD_OFFS], "Deltas": DELTAS, "Millis": [0, 250, 999], "Probe": True}
     ctx.job("time-probe", gens=[{"base": "GenTime", "consts": consts}], invariants=invariants, ops=[],
             cfg={"ds": "<", "de": ">", "tl": "tl", "rm": "rm"}, nontrivial=None)
 
@@ -687,7 +693,7 @@ def check_C05(ctx):
     tos = CANON_TOS[:6] if q else CANON_TOS
     deltas = DELTAS if q else sorted(set(DELTAS + list(range(-90, 91, 7)) + [-2, 2, 59, -59, 61, -61]))
     base = {"ToValues": [Chars(t) for t in tos], "BadTos": [Chars(t) for t in BAD_TOS], "OffMinutes": TlaSet(offs),
-            "BadOffsets": [Chars(o) for o in BAD_OFFS], "Deltas": deltas}
+            "BadOffsets": [Chars(o) for o in BAD_OFFS], "Deltas": deltas, "Millis": [0, 999] if q else [0, 1, 500, 999]}
     cfg = {"ds": "<", "de": ">", "tl": "tl", "rm": "rm"}
     ctx.job("time-eval", gens=[{"base": "GenTime", "consts": dict(base, Probe=False)}], invariants=["Inv_C05"], ops=[],
             cfg=cfg, nontrivial=ready_toggle)
@@ -719,8 +725,8 @@ def check_C06(ctx):
                 nontrivial=ready_toggle)
     # the command line with and without target options (defaults must contribute no targets)
     doc = "".join("<!-- <removal-marker name='%s'> -->\nx%d\n<!-- </removal-marker> -->\n" % (t, i)
-                  for i, t in enumerate(["vec![]", "a", "", "feature1", "+00:00", "removal-marker", "b ", "b", " c", "c"]))
-    ctx.job("targets-cli", gens=[{"base": "GenCli", "consts": {"Docs": [Chars(doc)], "TargetPool": [Chars("a"), Chars("b "), Chars(" c"), Chars("feature1")],
+                  for i, t in enumerate(["vec![]", "a", "", "feature1", "+00:00", "removal-marker", "b ", "b", " c", "c", "x,y", "x", "y"]))
+    ctx.job("targets-cli", gens=[{"base": "GenCli", "consts": {"Docs": [Chars(doc)], "TargetPool": [Chars("a"), Chars("b "), Chars(" c"), Chars("x,y"), Chars("feature1")],
                                                                "Zones": ["UTC"], "Langs": [""], "OmitAll": True, "Part": "stdout", "Currents": TlaSet(["given"])}}],
             invariants=["Inv_C06"], ops=[], cli=True,
             cfg={"ds": "<!-- <", "de": "> -->", "tl": "time-limited", "rm": "removal-marker", "off": "+00:00", "targets": []},
